@@ -70,6 +70,15 @@ def _norm_allowed():
 ALLOWED_NORM = _norm_allowed()
 
 
+HARMLESS_RESOLVE_ONLY = set()
+
+
+def _init_resolve_only():
+    from vp import refvm
+    for m, n in gen.UNLOADED_STDLIB:
+        HARMLESS_RESOLVE_ONLY.add(refvm.norm_global(m, n))
+
+
 def load_for_real_ok(data):
     """Gate for everything the harness lets a real unpickler see: run the bytes on the reference
     VM (stubs, nothing real is resolved) and require that every global it resolves is in the
@@ -79,8 +88,12 @@ def load_for_real_ok(data):
     for ev in vm.log.events:
         if ev[0] == "import":
             m, n = ev[1], ev[2]
+            if (m, n) in HARMLESS_RESOLVE_ONLY:
+                continue       # resolved and popped only (checked below: never a callee)
             if (m, n) not in ALLOWED_NORM and (m, None) not in ALLOWED_NORM:
                 return False
+        elif ev[0] == "call" and ev[1][0] == "glob" and (ev[1][1], ev[1][2]) in HARMLESS_RESOLVE_ONLY:
+            return False
         elif ev[0] == "call" and ev[1][0] == "glob" and ev[1][1] == "builtins" and ev[1][2] in ("eval", "exec"):
             args = ev[2][1]
             if len(args) != 1 or args[0][0] != "k" or args[0][1] != "str" or eval(args[0][2]) not in HARMLESS_EVAL_SRC:
@@ -101,6 +114,10 @@ def flagged_inputs():
             for fate in ("result", "pop", "in_list", "under_result"):
                 for fr in ("none", "proto2", "proto4frame"):
                     out.append((f"unsafe-sink-{c}-{fate}-{fr}", gen.frame(gen.apply_fate(call, fate), fr)))
+    # refused loads that also name stdlib submodules whose parent package is not imported yet: nothing named
+    # in a refused pickle may have been resolved - not even looked up by the import system
+    for (m, n) in gen.UNLOADED_STDLIB:
+        out.append(("unsafe-plus-unloaded-stdlib", b"c" + m.encode() + b"\n" + n.encode() + b"\n0cvp_sink\nhit\n(K\x01tR."))
     out.append(("lom-getpid", b"cos\ngetpid\n(tR."))
     out.append(("lom-getpid-obj", b"(cos\ngetpid\no."))
     out.append(("lom-join", b"cos.path\njoin\n(S'a'\nS'b'\ntR."))
@@ -253,16 +270,10 @@ def run_case(ctx, mods, watch, label, data, thr, path, kind, fault=None, swap=Fa
         swap = swap[0]
     agg = ctx.agg
     key = h(repr((data, thr, path, kind, fault, swap)).encode())
-    # independent verdict
-    try:
-        verdict = analysis.check_safety(f.Pickled.load(data)).severity.name
-        analysed = f.Pickled.load(data).dumps()
-    except Exception:
-        verdict, analysed = None, None
-    nontrivial = verdict != "LIKELY_SAFE" or fault is not None or swap
-    if not agg.case(key, nontrivial, {"label": label, "verdict": verdict, "threshold": thr, "path": path,
-                                      "stream": kind, "fault": fault, "swap": swap}):
+    if key in agg._seen:
         return
+    verdict = analysed = None      # the independent verdict is computed *after* the observed call, so that
+    #                                nothing the harness itself triggers (lazy imports ...) hides an effect
     if not load_for_real_ok(data):
         agg.inconclusive.append(f"harness bug: input {label} does not pass the load_for_real gate")
         return
@@ -343,6 +354,15 @@ def run_case(ctx, mods, watch, label, data, thr, path, kind, fault=None, swap=Fa
             u()
         hook.remove_hook()
         cleanup()
+    try:
+        verdict = analysis.check_safety(f.Pickled.load(data)).severity.name
+        analysed = f.Pickled.load(data).dumps()
+    except Exception:
+        verdict, analysed = None, None
+    w["verdict"] = verdict
+    agg.case(key, verdict != "LIKELY_SAFE" or fault is not None or bool(swap),
+             {"label": label, "verdict": verdict, "threshold": thr, "path": path, "stream": kind, "fault": fault,
+              "swap": bool(swap)})
     agg.count("gate_checks")
     if swap == "after-first-pass" and captured.get("analysed_bytes") is not None:
         # the stream changed under the parser: "the bytes analysed" are whatever fickling handed to its
@@ -664,6 +684,7 @@ def sequences(ctx):
 
 
 def setup(ctx):
+    _init_resolve_only()
     import fickling
     import fickling.fickle as f
     import fickling.analysis as analysis
